@@ -393,7 +393,7 @@ Lemma create_table_cases prof k tn cols k' r :
   pkg_create_table prof k tn cols = (k', r) ->
   (k' = k /\ r <> Ok tt) \/ (checks_pass k tn cols /\ create_tail prof k tn cols = (k', r)).
 Proof.
-  unfold pkg_create_table, checks_pass.
+  unfold pkg_create_table, pkg_create_table_with, checks_pass.
   destruct (is_valid_tname tn) eqn:E1; cbn [negb]; [|early].
   destruct (existsb (str_eqb tn) CREATE_TABLE_EXTRA_RESERVED) eqn:E2; [early|].
   destruct cols as [|c0 cols0]; [early|].
@@ -408,6 +408,7 @@ Proof.
   try (destruct (rows_fit (find_table (k_tabs k) TABLES_TABLE_NAME) _) as [[|]| |] eqn:F2);
   try (destruct (vrows_fit tn (find_table (k_tabs k) VALIDATION_TABLE_NAME) _) as [[|]| |] eqn:F3);
   try early.
+  destruct (if CREATE_TABLE_DRY_RUNS then _ else _) as [ud| |]; [|early|early].
   intros H. right. split.
   - split; [reflexivity|]. split; [|split; [exact Ene|]].
     + intros Hin. apply existsb_str_In in Hin. congruence.
